@@ -9,12 +9,14 @@ func init() {
 		c.Clause("WaitGroup.Add for probe goroutines is joinable by Stop")
 		c.Clause("an object put back into a sync.Pool is not used afterwards on any path (deferred calls in the order they run)")
 		c.Clause("snapshots handed to readers (metrics, listings) are copies that share no mutable storage with the guarded original; no lock is held across a write to a client connection (a stalled client would block every writer of that lock)")
-		c.NotDecided("races through aliases the field-based analysis cannot see (cfg.LoadBalancer.Strategy written by SetStrategy); races inside third-party code; deadlocks that need a specific blocking I/O pattern — this is a lint-grade race analysis, not a proof of race freedom")
+		c.Clause("a field of the loaded configuration that is stored at run time (the strategy name) is read only under the writer's lock or by start-up code that main runs before any goroutine that can reach the writer exists")
+		c.NotDecided("races through aliases the field-based analysis cannot see; races inside third-party code; deadlocks that need a specific blocking I/O pattern — this is a lint-grade race analysis, not a proof of race freedom")
 		lockDiscipline(c, nil)
 		lockPairing(c, nil)
 		lockOrder(c)
 		c.waitGroupJoinable()
 		c.snapshotNoEscape()
 		c.poolReleasedLast()
+		c.configStableAfterStart()
 	}
 }
